@@ -3,7 +3,7 @@
 From Coq Require Import Reals List Bool QArith Qabs Lra.
 From Interval Require Import Tactic.
 From EsVerif.Common Require Import Base.
-From EsVerif.C10 Require Import Gen Model Spec.
+From EsVerif.C10 Require Import Gen Model Spec Lonpole Construct.
 Import ListNotations.
 
 (* ---------------------------------------------------------------------------------------- *)
@@ -49,6 +49,28 @@ Ltac c10_cert_hi := c10_stage c10_intro_hi; c10_sky; interval with (i_prec 160).
 (* goal: ~ sky_close (fits_pix2sky_vec H x y) (unitvec lon lat) tol *)
 Ltac c10_refute :=
   unfold sky_close; apply Rlt_not_le; c10_stage c10_intro_hi; c10_sky; interval with (i_prec 160).
+
+(* LONPOLE other than 180: goal  sky_close (fits_pix2sky_vec_lp H x y) (unitvec lon lat) tol  -- the reference is the
+   paper's Euler rotation (CRVAL1, CRVAL2, LONPOLE) of the TAN native direction (theorem C10_forward_matches_fits_any_lonpole) *)
+Ltac c10_stage_lp tac1 :=
+  unfold fits_pix2sky_vec_lp;
+  match goal with |- context [fits_intermediate ?h ?x ?y] =>
+    let e1 := c10_inter (fst (fits_intermediate h x y)) in
+    let e2 := c10_inter (snd (fits_intermediate h x y)) in
+    let H1 := fresh "Hxi" in let H2 := fresh "Heta" in
+    tac1 e1 H1; tac1 e2 H2;
+    change e1 with (fst (fits_intermediate h x y)) in H1;
+    change e2 with (snd (fits_intermediate h x y)) in H2;
+    generalize dependent (fits_intermediate h x y)
+  end;
+  let xe := fresh "xe" in intros xe; destruct xe as [xi eta]; cbv [fst snd]; intros.
+Ltac c10_sky_lp :=
+  cbv [sky_close vdist2 vx vy vz fst snd unitvec rad fits_sky_vec_lp fits_celestial_vec tan_native_vec euler_cel2nat
+       mapply transpose mmul rot_z rot_x m00 m01 m02 m10 m11 m12 m20 m21 m22 h_crval1 h_crval2 h_longpole].
+Ltac c10_cert_lp := c10_stage_lp c10_intro_std; c10_sky_lp; interval.
+Ltac c10_cert_lp_hi := c10_stage_lp c10_intro_hi; c10_sky_lp; interval with (i_prec 160).
+Ltac c10_refute_lp :=
+  unfold sky_close; apply Rlt_not_le; c10_stage_lp c10_intro_hi; c10_sky_lp; interval with (i_prec 160).
 
 (* distort=False: the header is read as a plain tangent-plane header *)
 Definition fits_pix2sky_vec_nodistort (h : header) (px py : R) : vec :=
@@ -124,3 +146,11 @@ Definition v_close_rel (a b : list Q) (tol : Q) : Z := v_of (qlist_close a b tol
 (* scalar = array to the statement's accuracies: pixels / jacobian entries absolutely, sky positions on the sky *)
 Definition v_close_abs (a b : list Q) (tol : Q) : Z := v_of (qlist_close_abs a b tol).
 Definition v_sky_same (a b : list (Q * Q)) (tol : Q) : Z := v_of (sky_list_same a b tol).
+
+(* constructor: model's verdict (accept / KeyError / ValueError) against the implementation's, and for an accepted header
+   whether a conversion is possible at all (a CD matrix is present) *)
+Definition res_code (r : result unit) : Z :=
+  match r with Ok _ => 0 | Err EKey => 1 | Err EValue => 2 | Err _ => 3 end%Z.
+Definition v_construct (q : raw) (impl_code : Z) (impl_converts : bool) : Z :=
+  let m := res_code (construct_check q) in
+  verdict (Z.eqb m impl_code && (if Z.eqb m 0 then Bool.eqb (can_convert q) impl_converts else true)) true.
